@@ -35,7 +35,7 @@ var specs = map[string]spec{
 			{name: "rigrandom", test: "TestC06RigRandom", rapid: true, checks: [2]int{2500, 100000}, shards: [2]int{4, 8}, secs: [2]int{900, 7200}},
 			{name: "rigexhaustive", test: "TestC06RigExhaustive", shards: [2]int{16, 16}, count: [2]int{3, 4}, secs: [2]int{900, 14400}},
 		},
-		rule:        "programs = MEM/WALK/SHADOW/SHADOWSLOW/CACHE/PAIR programs (results may be wrong for known reasons: no result-level exclusion) on MVP-7.0/7.1/8 x 1..4 cores with the invariant monitor called on every loop iteration of Run through the tick hook; the monitor reads a snapshot of every L1, the directory, the per-line lock counters, the outstanding snoop commands and (MVP-8) the L3, and checks I1 at most one Modified owner and then no Shared copy, I2 a Shared L1 line equals the next level byte for byte (covering L3 line if resident, else memory), I3 resident in L1 <=> state != Invalid when no transfer is in progress on the line (lock counters zero, no outstanding command, L3 line not locked), I4 no duplicate, aligned, full-size lines, I5 lock counters >= 0 (a recovered 'is negative' panic counts). rigrandom / rigexhaustive = the same monitor on the pipeline-less controller rig stepped exactly as CPU.Run does (snoop, then each core's read/write coroutine with the same request until done): random schedules of 1-8 requests on 2-4 cores and 3 lines with up to 2 flushes; exhaustive = every schedule of up to k requests (3 quick, 4 thorough) of (core, read|write, line 0..1, issue delay 0..2) from 2 and 3 cores, each also with one flush of one core or of all cores at each of 15 critical cycles (around the line push at cycle 309..316), on the three variants; quiescence is required. Non-trivial = a line that was Modified on one core is later held (Modified or Shared) by another core; distinct by (program, state) or by schedule.",
+		rule:        "programs = MEM/WALK/SHADOW/SHADOWSLOW/CACHE/PAIR/OWNER programs (results may be wrong for known reasons: no result-level exclusion) on MVP-7.0/7.1/8 x 1..4 cores with the invariant monitor called on every loop iteration of Run through the tick hook; the monitor reads a snapshot of every L1, the directory, the per-line lock counters, the outstanding snoop commands and (MVP-8) the L3, and checks I1 at most one Modified owner and then no Shared copy, I2 a Shared L1 line equals the next level byte for byte (covering L3 line if resident, else memory), I3 resident in L1 <=> state != Invalid when no transfer is in progress on the line (lock counters zero, no outstanding command, L3 line not locked), I4 no duplicate, aligned, full-size lines, I5 lock counters >= 0 (a recovered 'is negative' panic counts). rigrandom / rigexhaustive = the same monitor on the pipeline-less controller rig stepped exactly as CPU.Run does (snoop, then each core's read/write coroutine with the same request until done): random schedules of 1-8 requests on 2-4 cores and 3 lines with up to 2 flushes; exhaustive = every schedule of up to k requests (3 quick, 4 thorough) of (core, read|write, line 0..1, issue delay 0..2) from 2 and 3 cores, each also with one flush of one core or of all cores at each of 15 critical cycles (around the line push at cycle 309..316), on the three variants; quiescence is required. Non-trivial = a line that was Modified on one core is later held (Modified or Shared) by another core; distinct by (program, state) or by schedule.",
 		assumptions: []string{"the snapshot hook copies references and changes nothing", "'transfer in progress' = the line's lock counters are non-zero, or a snoop command for that (core, line) is outstanding, or (MVP-8) the covering L3 line is locked or has a command outstanding", "the rig steps the controllers in the order CPU.Run uses"},
 	},
 	"C08": {
@@ -52,7 +52,7 @@ var specs = map[string]spec{
 			{name: "table", test: "TestC12Table", secs: [2]int{300, 300}},
 			{name: "valueindep", test: "TestC12ValueIndependence", rapid: true, checks: [2]int{100, 1500}, shards: [2]int{4, 4}, secs: [2]int{900, 7200}},
 		},
-		rule:        "model = programs of the profiles REG/MEM/WALK/MEMSAFE: MVP-1's count must equal the sum over the executed instructions (reference trace) of fetch (MemoryAccess) + decode 1 + memory read for a load (MemoryAccess) + InstructionType.Cycles() + write-back (RegisterAccess for a register result, MemoryAccess for a store; ret counts up to execute), the constants being read from common/latency and from the code so that the formula is the oracle; MVP-2 <= MVP-1 on the same run; on every configuration cycles > 0 and cycles >= ceil(executed / max(2, parallelism)) — the relations that use the executed-instruction count are judged only on runs whose result equals the reference. table = the 6 constants of common/latency and InstructionType.Cycles() of the 45 types against the documented values (loads 50, everything else 1), enumerated completely. valueindep = programs whose registers are split into control/address registers and data registers (data never feeds a branch, an address or a divisor; loads write data registers only), two initial states that differ only in data registers, the reference confirming identical pc and address traces: the cycle counts must be equal on every configuration. Non-trivial = (model) the trace has a load, a store and a taken transfer, (valueindep) the two runs end with different registers; distinct by (text, registers, memory image).",
+		rule:        "model = programs of the profiles REG/MEM/WALK/MEMSAFE and JUMPS (chains of jumps between blocks of 1-3 instructions laid out in a drawn order with 0-30 never-executed instructions between them, visited in another order: fetch keeps leaving the cached window forwards and backwards): MVP-1's count must equal the sum over the executed instructions (reference trace) of fetch (MemoryAccess) + decode 1 + memory read for a load (MemoryAccess) + InstructionType.Cycles() + write-back (RegisterAccess for a register result, MemoryAccess for a store; ret counts up to execute), the constants being read from common/latency and from the code so that the formula is the oracle; MVP-2 <= MVP-1 on the same run; on every configuration cycles > 0 and cycles >= ceil(executed / max(2, parallelism)) — the relations that use the executed-instruction count are judged only on runs whose result equals the reference. table = the 6 constants of common/latency and InstructionType.Cycles() of the 45 types against the documented values (loads 50, everything else 1), enumerated completely. valueindep = programs whose registers are split into control/address registers and data registers (data never feeds a branch, an address or a divisor; loads write data registers only), including conditional branches on data registers whose target is the next instruction (taken or not, the path is the same), two initial states that differ only in data registers, the reference confirming identical pc and address traces: the cycle counts must be equal on every configuration. Non-trivial = (model) the trace has a load, a store and a taken transfer, or is a jump chain of >= 6 executed instructions, (valueindep) the two runs end with different registers; distinct by (text, registers, memory image).",
 		assumptions: []string{"the documented latency table is the one of the pinned commit (common/latency cites its source; TestBenchmarks pins cycle counts derived from it): job 'table' compares the constants with it", "issue width bound max(2, parallelism) is deliberately loose"},
 	},
 	"C13": {
@@ -84,7 +84,7 @@ var specs = map[string]spec{
 	},
 	"C01": {
 		jobs:        []job{{name: "mixed", test: "TestC01", rapid: true, checks: [2]int{600, 15000}, shards: [2]int{16, 16}, secs: [2]int{900, 7200}}},
-		rule:        "Programs drawn by the concolic builder from the profiles REG 40% / MEM 35% / SHADOW 15% / WALK 10% (3-60 static instructions in quick, up to 200 in thorough; all mnemonics; full-range initial registers; memory images 64 B - 16 KB; exit by ret or fall-through), each run on all 33 configurations (12 variants, parallelism 1..4) and compared with the reference: 32 registers, every memory byte, no error, no panic, within the budget. Non-trivial = >= 5 executed instructions, >= 1 register written and two adjacent independent instructions in the trace; distinct by (program text, registers, memory image).",
+		rule:        "Programs drawn by the concolic builder from the profiles REG 38% / MEM 30% / SHADOW 15% / WALK 9% / OWNER 8% (OWNER = lines owned by one core, shared lines upgraded, and memory work waiting behind a cache miss while a younger taken branch or first-time jump redirects the pipeline) (3-60 static instructions in quick, up to 200 in thorough; all mnemonics; full-range initial registers; memory images 64 B - 16 KB; exit by ret or fall-through), each run on all 33 configurations (12 variants, parallelism 1..4) and compared with the reference: 32 registers, every memory byte, no error, no panic, within the budget. Non-trivial = >= 5 executed instructions, >= 1 register written and two adjacent independent instructions in the trace; distinct by (program text, registers, memory image).",
 		assumptions: []string{"the reference interpreter harness/ref is the sequential semantics (cross-checked per instruction by C02)", "parallelism p means EU = WU = p on MVP-6.x and p cores on MVP-7.x/8", "a case matching the trigger of a finding listed in /verif/known-findings.txt is not judged on the configurations of that finding (counted under excluded_by_known_finding)", "budget of simulated loop iterations = 16 x (executed instructions + 64) x 309, never wall-clock"},
 	},
 	"C03": {
@@ -99,7 +99,7 @@ var specs = map[string]spec{
 	},
 	"C05": {
 		jobs:        []job{{name: "cache", test: "TestC05", rapid: true, checks: [2]int{200, 3000}, shards: [2]int{16, 16}, secs: [2]int{900, 7200}}},
-		rule:        "CACHE (random aligned lb/lh/lw/sb/sh/sw spread over all lines of 2-16 KB memories), WALK (strided loops, strides 1..1024, loads folded into a checksum register, read-modify-write walks) and MEMSAFE (loads and stores on disjoint halves) programs on the 29 configurations with a data cache (MVP-3..8), compared with the reference registers and the whole memory after Run returns. Non-trivial = the run touches more than 16 lines of 64 bytes (the smallest data cache) and some line is written, evicted (ideal-LRU replay of that geometry over the reference trace) and read again; distinct by (text, registers, memory image).",
+		rule:        "CACHE (random aligned lb/lh/lw/sb/sh/sw spread over all lines of 2-16 KB memories), WALK (strided loops, strides 1..1024, loads folded into a checksum register, read-modify-write walks) MEMSAFE (loads and stores on disjoint halves) and OWNER (owned and shared lines, accesses waiting behind a miss while the pipeline is redirected) programs on the 29 configurations with a data cache (MVP-3..8), compared with the reference registers and the whole memory after Run returns. Non-trivial = the run touches more than 16 lines of 64 bytes (the smallest data cache) and some line is written, evicted (ideal-LRU replay of that geometry over the reference trace) and read again; distinct by (text, registers, memory image).",
 		assumptions: []string{"the reference interpreter harness/ref is the sequential semantics (cross-checked per instruction by C02)", "parallelism p means EU = WU = p on MVP-6.x and p cores on MVP-7.x/8", "a case matching the trigger of a finding listed in /verif/known-findings.txt is not judged on the configurations of that finding (counted under excluded_by_known_finding)", "budget of simulated loop iterations = 16 x (executed instructions + 64) x 309, never wall-clock"},
 	},
 	"C07": {
@@ -107,7 +107,7 @@ var specs = map[string]spec{
 			{name: "terminates", test: "TestC07Terminates", rapid: true, checks: [2]int{400, 10000}, shards: [2]int{12, 12}, secs: [2]int{900, 7200}},
 			{name: "errors", test: "TestC07Errors", rapid: true, checks: [2]int{400, 15000}, shards: [2]int{4, 4}, secs: [2]int{900, 7200}},
 		},
-		rule:        "terminates: programs of the profiles REG, MEM, SHADOW, WALK, SHADOWSLOW, MEMSAFE on all 33 configurations; the outcome must be ok within the budget of simulated loop iterations (a recovered Go panic, a budget overrun or an error is a violation; values are not compared). errors: programs that reach a defined error on the executed path — div/rem by the zero register or by a register holding 0, a taken branch or a jump to an undefined label — early, late, inside a counted loop, right after a long-latency load; the outcome must be an error value (ok, a panic or a budget overrun is a violation). Non-trivial = (terminates) the run has a memory access or a taken transfer, (errors) the reference reaches the fault (always, else the case is skipped); distinct by (text, registers, memory image).",
+		rule:        "terminates: programs of the profiles REG, MEM, SHADOW, WALK, SHADOWSLOW, MEMSAFE, OWNER on all 33 configurations; the outcome must be ok within the budget of simulated loop iterations (a recovered Go panic, a budget overrun or an error is a violation; values are not compared). errors: programs that reach a defined error on the executed path — div/rem by the zero register or by a register holding 0, a taken branch or a jump to an undefined label — early, late, inside a counted loop, right after a long-latency load; the outcome must be an error value (ok, a panic or a budget overrun is a violation). Non-trivial = (terminates) the run has a memory access or a taken transfer, (errors) the reference reaches the fault (always, else the case is skipped); distinct by (text, registers, memory image).",
 		assumptions: []string{"the reference interpreter harness/ref is the sequential semantics (cross-checked per instruction by C02)", "parallelism p means EU = WU = p on MVP-6.x and p cores on MVP-7.x/8", "a case matching the trigger of a finding listed in /verif/known-findings.txt is not judged on the configurations of that finding (counted under excluded_by_known_finding)", "budget of simulated loop iterations = 16 x (executed instructions + 64) x 309, never wall-clock"},
 	},
 	"C09": {
